@@ -305,6 +305,9 @@ def extract_formatter(X):
             "text": text,
             "prec2": int(round(2 * cells["op_prec"])),
             "ordered": bool(cells.get("ordered", True)),
+            # `chains`: a op b op c is read as (a op b) op c; without it the left operand is isolated as well
+            # (a source that has no such parameter behaves as chains=True)
+            "chains": bool(cells.get("chains", True)),
             "key": info["key"] if info else None,
         })
         if 2 * cells["op_prec"] != int(round(2 * cells["op_prec"])):
@@ -328,13 +331,14 @@ def gen_fmt_lean(X):
         "def opInfo (key : String) : OpInfo := (ops.find? (fun o => o.key == key)).getD default",
         "",
         "/-- every `Formatter._x = Operator(...)` that writes an expression operator:",
-        "    JSON name, 2 × precedence number, `ordered`, and the parser's row for the text it writes -/",
+        "    JSON name, 2 × precedence number, `ordered`, `chains`, and the parser's row for the text it writes -/",
         "def fmtOps : List FmtOp := [",
     ]
     for i, o in enumerate(ops):
         sep = "," if i + 1 < len(ops) else ""
-        lines.append("  { name := %s, prec2 := %d, ordered := %s, info := opInfo %s }%s" % (
-            lean_str(o["name"]), o["prec2"], "true" if o["ordered"] else "false", lean_str(o["key"]), sep))
+        lines.append("  { name := %s, prec2 := %d, ordered := %s, chains := %s, info := opInfo %s }%s" % (
+            lean_str(o["name"]), o["prec2"], "true" if o["ordered"] else "false", "true" if o.get("chains", True) else "false",
+            lean_str(o["key"]), sep))
     lines.append("]")
     lines.append("")
     lines.append("/-- (outer, slot, inner) triples listed in known_findings.json for which the formatter is known to omit needed parentheses -/")
